@@ -578,6 +578,8 @@ type FieldStat struct {
 	Suspect     int `json:"suspect"`
 	Arity       int `json:"arity"`
 	GenErrors   int `json:"gen_errors"`
+	RejectedProbes int `json:"rejected_probes"` // values the validator function rejects, delivered through the controller
+	RejectedServed int `json:"rejected_served"` // ... and rendered all the same
 	ShapesAccepted int `json:"shapes_accepted"` // other grammatical shapes the real validator accepts for the field (used as bases)
 	Raw         int `json:"raw_reach"` // accepted candidates whose value appears verbatim in the rendering (and not in the base rendering)
 }
@@ -1002,6 +1004,31 @@ func runJob(e *env, fi int, fx Fixture, plus bool, rng *vh.Rng, thorough bool, b
 	perFieldSuspects := map[string]int{}
 	fieldInstances := map[string]int{}
 	ctxSeen := map[string]bool{}
+	absent := map[int]*Render{}
+	probed := map[string]bool{}
+	// quick tier, NGINX Plus edition: a field that the NGINX edition of the same fixture also has got its full payload set
+	// there; here it gets the context set (single structural bytes, classic combinations, trim grammar, boundaries)
+	ossHas := map[string]bool{}
+	if !thorough {
+		var covering []*World
+		if plus {
+			covering = append(covering, fx.Build(false))
+		}
+		for _, f2 := range fixtures {
+			if f2.Name == w.CoveredBy {
+				covering = append(covering, f2.Build(plus))
+			}
+		}
+		for _, cw := range covering {
+			for _, o := range cw.Objs {
+				for _, l := range objLeaves(o, nil) {
+					if l.Value != "" {
+						ossHas[normField(l.Field)] = true
+					}
+				}
+			}
+		}
+	}
 	for oi, o := range w.Objs {
 		leaves := objLeaves(o, w.ExtraAnn)
 		for _, l := range leaves {
@@ -1047,7 +1074,7 @@ func runJob(e *env, fi int, fx Fixture, plus bool, rng *vh.Rng, thorough bool, b
 				fieldInstances[nf]++
 				fieldInstances[ck]++
 				switch {
-				case fieldInstances[nf] == 1 && !w.Secondary:
+				case fieldInstances[nf] == 1 && !w.Secondary && !ossHas[normField(l.Field)]:
 					wantShapes, wantBoundaries = true, true
 					payloads = append([]string(nil), corePayloads[:47]...)
 					for _, p := range corePayloads[47:] {
@@ -1075,6 +1102,20 @@ func runJob(e *env, fi int, fx Fixture, plus bool, rng *vh.Rng, thorough bool, b
 			if !ctxSeen[normField(l.Field)+"|"+lctx] {
 				ctxSeen[normField(l.Field)+"|"+lctx] = true
 				sum.Contexts[lctx]++
+			}
+			if pk := normField(l.Field) + "|" + resourceContext(o); o.Kind != "policy" && !probed[pk] && (thorough || l.Value != "" || !probed[pk+"|e"]) {
+				// once per field and RESOURCE-level context (the verdict of the controller is about the whole resource)
+				probed[pk] = l.Value != ""
+				probed[pk+"|e"] = true
+				// rejected, hence not served: a value the real validator function rejects, through the real controller path
+				if c, ok, served := e.rejectedProbe(w, &base, oi, l, absent); ok {
+					st.RejectedProbes++
+					if served {
+						st.RejectedServed++
+						c.Fixture, c.Ctx = fx.Name, leafContext(o, l)
+						res.errs = append(res.errs, c)
+					}
+				}
 			}
 			// other accepted shapes of this field (first instance of the field, or of the field in a new context)
 			bases := []string{l.Value}
@@ -1233,7 +1274,7 @@ func main() {
 	for fi := range fixtures {
 		n := 1
 		if strings.HasPrefix(fixtures[fi].Name, "vs-rich") {
-			n = 12
+			n = 6
 		} else if strings.HasPrefix(fixtures[fi].Name, "vs-cross") {
 			n = 4
 		} else if strings.HasPrefix(fixtures[fi].Name, "vs-") || strings.HasPrefix(fixtures[fi].Name, "ing-a") || fixtures[fi].Name == "mergeable" {
@@ -1304,6 +1345,8 @@ func main() {
 				t.Suspect += st.Suspect
 				t.Arity += st.Arity
 				t.GenErrors += st.GenErrors
+				t.RejectedProbes += st.RejectedProbes
+				t.RejectedServed += st.RejectedServed
 				t.ShapesAccepted += st.ShapesAccepted
 				t.Raw += st.Raw
 			}
@@ -1561,10 +1604,16 @@ func leafContext(o Obj, l Leaf) string {
 			if m[3] != "" && atoi(m[3]) < len(mt.Splits) {
 				loc = "matches-splits"
 				act = mt.Splits[atoi(m[3])].Action
+				if mt.Splits[atoi(m[3])].Weight == 0 {
+					loc += "-w0"
+				}
 			}
 		} else if m[3] != "" && atoi(m[3]) < len(r.Splits) {
 			loc = "splits"
 			act = r.Splits[atoi(m[3])].Action
+			if r.Splits[atoi(m[3])].Weight == 0 {
+				loc += "-w0"
+			}
 		} else if len(r.Matches) > 0 {
 			loc = "top+m"
 		}
@@ -1609,6 +1658,9 @@ func leafContext(o Obj, l Leaf) string {
 			role = t
 		}
 		c := "ing:" + role + ":regex=" + x.Annotations["nginx.org/path-regex"]
+		if x.Labels["acme.cert-manager.io/http01-solver"] == "true" {
+			c += ":solver"
+		}
 		if m := ctxPathRe.FindStringSubmatch(l.Path); m != nil {
 			ri, pi := atoi(m[1]), atoi(m[2])
 			if ri < len(x.Spec.Rules) && x.Spec.Rules[ri].HTTP != nil && pi < len(x.Spec.Rules[ri].HTTP.Paths) {
@@ -1626,6 +1678,18 @@ func leafContext(o Obj, l Leaf) string {
 		return "ts:" + x.Spec.Listener.Protocol + ":" + tls
 	}
 	return ""
+}
+
+// resourceContext: the selectors that can change how the controller treats a resource AS A WHOLE
+func resourceContext(o Obj) string {
+	if x, ok := o.Val.(*networking.Ingress); ok {
+		c := "ing:" + x.Annotations["nginx.org/mergeable-ingress-type"]
+		if x.Labels["acme.cert-manager.io/http01-solver"] == "true" {
+			c += ":solver"
+		}
+		return c
+	}
+	return o.Kind
 }
 
 // contextPayloads: what a (field, context) pair seen for the first time gets in the quick tier when the
